@@ -958,10 +958,23 @@ class SamplingMethod(DirectMethod):
                                                                DT=DT,
                                                                DT_control=DT_control))
 
+    def sort_initial(self, stage, initial):
+        """Guesses for the horizon come first: guesses that depend on time are evaluated on the guessed time grid"""
+        def is_horizon(var):
+            for e in [stage.T, stage.t0, stage._T, stage._t0]:
+                if isinstance(e, MX) and is_equal(var, e): return True
+            return False
+        ret = HashOrderedDict()
+        for var, expr in initial.items():
+            if is_horizon(var): ret[var] = expr
+        for var, expr in initial.items():
+            if not is_horizon(var): ret[var] = expr
+        return ret
+
     def set_initial(self, stage, master, initial):
         opti = master.opti if hasattr(master, 'opti') else master
         opti.cache_advanced()
-        initial = HashOrderedDict(initial)
+        initial = self.sort_initial(stage, HashOrderedDict(initial))
         algs = get_ranges_dict(stage.algebraics)
         initial_alg = HashDict()
         for a, v in list(initial.items()):
